@@ -96,7 +96,7 @@ class _Proxy:
     def close(self):
         if self._f.closed:
             return
-        name = "close" if self._kind == "tmp" else "closet"
+        name = "closet" if self._kind == "target" else "close"
         try:
             self._inj._do(name, self._f.close, mutating=False)
         finally:
@@ -193,7 +193,7 @@ class Injector:
         return r
 
     def _write(self, px: _Proxy, b):
-        data = bytes(b)
+        data = b if isinstance(b, (str, bytes)) else bytes(b)
         if self.depth > 0:
             return px._f.write(data)
         if self.dead:
@@ -244,7 +244,7 @@ class Injector:
 
         def fsync(fd):
             kind = inj.fdkind.get(fd if isinstance(fd, int) else getattr(fd, "fileno", lambda: -1)())
-            name = {"tmp": "fsync", "target": "fsynct", "dir": "fsyncd"}.get(kind, "fsync")
+            name = {"tmp": "fsync", "target": "fsynct", "dir": "fsyncd", "direct": "fsync"}.get(kind, "fsync")
             return inj._do(name, lambda: real["fsync"](fd), mutating=False)
 
         def chmod(path, mode, *a, **kw):
@@ -302,7 +302,22 @@ class Injector:
         def sleep(_s):
             return None
 
-        patches = [(os, "replace", replace), (os, "fsync", fsync), (os, "chmod", chmod), (os, "open", os_open),
+        def g_open(file, mode="r", *a, **kw):
+            # ANY open-for-write/append of a path inside the watched directory made by code other than the atomic
+            # helper is a primitive step too (`open_direct`), so faults and reader snapshots cover the whole call
+            try:
+                if inj.depth == 0 and isinstance(mode, str) and any(ch in mode for ch in "wax+") \
+                        and isinstance(file, (str, os.PathLike)) and not _from_atomic():
+                    p = os.path.abspath(os.fspath(file))
+                    if p.startswith(os.path.abspath(inj.dir) + os.sep):
+                        f = inj._do("open_direct", lambda: _real_open(file, mode, *a, **kw))
+                        return _Proxy(inj, f, "direct")
+            except (Crash, OSError):
+                raise
+            return _real_open(file, mode, *a, **kw)
+
+        import io as _io_mod
+        patches = [(builtins, "open", g_open), (_io_mod, "open", g_open), (os, "replace", replace), (os, "fsync", fsync), (os, "chmod", chmod), (os, "open", os_open),
                    (os, "close", os_close), (tempfile, "NamedTemporaryFile", ntf), (P, "mkdir", mkdir),
                    (P, "stat", stat), (P, "unlink", unlink), (time, "sleep", sleep)]
         for obj, attr, new in patches:
